@@ -30,12 +30,14 @@ Inductive obs :=
 | OPAct (k : nat)                              (* pure API: user action k reported (not run) *)
 | OPBuiltin (code : nat)                       (* pure API: built-in reported: 1 assign, 2 raise, 3 emit, 4 other *)
 | OFail                                        (* on_error hook: the machine entered the error status *)
-| OClock (t : nat).                            (* the virtual clock, recorded when an event starts processing and after a slow action *)                             (* answer of can(event), probed by the harness before a send *)
+| OClock (t : nat)
+| OSvc (iid : string).                         (* an invoked service was called *)                            (* the virtual clock, recorded when an event starts processing and after a slow action *)                             (* answer of can(event), probed by the harness before a send *)
 
 (* an armed after-timer or a running invoked service, on the virtual clock (ms) *)
 Inductive pkind :=
 | PAfter (evtype : string)                                 (* delivers AfterEvent(type) *)
-| PSvc (iid : string) (ok : bool) (val : Z) (handled : bool).  (* delivers done.invoke / error.platform; unhandled error fails the machine *)
+| PSvc (iid : string) (ok : bool) (val : Z) (handled : bool)   (* delivers done.invoke / error.platform; unhandled error fails the machine *)
+| PSvcStart (iid : string) (dur : nat) (ok : bool) (val : Z) (handled : bool).  (* async: the service task has been created but not run yet *)
 Record pend := { p_owner : nat; p_due : nat; p_seq : nat; p_kind : pkind }.
 
 Record st := {
@@ -105,7 +107,10 @@ Definition fail_machine (s : st) : st :=
 Definition svc_event (iid : string) (ok : bool) : event :=
   {| e_type := ((if ok then "done.invoke." else "error.platform.") ++ iid)%string; e_kind := EDone iid; e_tag := 0 |}.
 
-(* what an expiring timer / finishing service does (the interpreter may be busy or idle; this only queues) *)
+Definition arm (x : nat) (due : nat) (k : pkind) (s : st) : st :=
+  with_pending (s_pending s ++ [{| p_owner := x; p_due := due; p_seq := s_seq s; p_kind := k |}]) (S (s_seq s)) s.
+
+(* what an expiring timer / starting or finishing service does (the interpreter may be busy or idle; this only queues) *)
 Definition deliver (eng : engine) (p : pend) (s : st) : st :=
   match p_kind p with
   | PAfter ty =>
@@ -121,6 +126,8 @@ Definition deliver (eng : engine) (p : pend) (s : st) : st :=
   | PSvc iid ok val handled =>
       let s1 := send_self eng (svc_event iid ok) s in
       if ok || handled then s1 else fail_machine s1
+  | PSvcStart iid dur ok val handled =>
+      arm (p_owner p) (p_due p + dur) (PSvc iid ok val handled) (logo (OSvc iid) s)
   end.
 
 Fixpoint ins_pend (p : pend) (l : list pend) : list pend :=
@@ -131,18 +138,27 @@ Fixpoint ins_pend (p : pend) (l : list pend) : list pend :=
   end.
 Definition sort_pend (l : list pend) : list pend := fold_right ins_pend [] l.
 
-(* the interpreter is busy for d ms (a slow action): everything that falls due meanwhile is delivered
-   (queued) in due order, nothing is processed *)
+Definition is_start (p : pend) : bool := match p_kind p with PSvcStart _ _ _ _ _ => true | _ => false end.
+
+(* the interpreter is busy until `target` (a slow action): everything that falls due meanwhile is delivered
+   (queued) in due order, nothing is processed.  Fuel: a delivery creates at most one new item. *)
+Fixpoint busy_loop (fuel : nat) (eng : engine) (target : nat) (s : st) : st :=
+  match fuel with
+  | 0 => s
+  | S f =>
+      match sort_pend (filter (fun p => Nat.leb (p_due p) target) (s_pending s)) with
+      | [] => s
+      | p :: rest =>
+          (* two timers / completions at the same instant: the real order is the event loop's / OS scheduler's
+             business; the model marks the run inconclusive (OCut 9) instead of guessing *)
+          let tie := match rest with q :: _ => Nat.eqb (p_due p) (p_due q) && negb (is_start p) && negb (is_start q) | [] => false end in
+          let s1 := with_pending (filter (fun q => negb (Nat.eqb (p_seq q) (p_seq p))) (s_pending s)) (s_seq s) s in
+          busy_loop f eng target ((if tie then logo (OCut 9) else (fun x => x)) (deliver eng p s1))
+      end
+  end.
 Definition advance_busy (eng : engine) (d : nat) (s : st) : st :=
   let target := s_now s + d in
-  let due := sort_pend (filter (fun p => Nat.leb (p_due p) target) (s_pending s)) in
-  let rest := filter (fun p => negb (Nat.leb (p_due p) target)) (s_pending s) in
-  let tie := (fix has_tie (l : list pend) : bool :=
-                match l with a :: ((b :: _) as r) => Nat.eqb (p_due a) (p_due b) || has_tie r | _ => false end) due in
-  (* two items due at the same instant: the real order is the event loop's / OS scheduler's business;
-     the model marks the run inconclusive (OCut 9) instead of guessing *)
-  (if tie then logo (OCut 9) else (fun x => x))
-    (with_now target (fold_left (fun s' p => deliver eng p s') due (with_pending rest (s_seq s) s))).
+  with_now target (busy_loop (2 * List.length (s_pending s) + 2) eng target s).
 
 (* ---------------- actions ---------------- *)
 
@@ -310,17 +326,15 @@ Definition fire_on_done (eng : engine) (pr : bool) (m : machine) (fin : nat) (s 
 
 (* at this level only the call and the "service not registered" failure are
    modelled; Timers.v refines what an armed task does later *)
-Definition arm (x : nat) (due : nat) (k : pkind) (s : st) : st :=
-  with_pending (s_pending s ++ [{| p_owner := x; p_due := due; p_seq := s_seq s; p_kind := k |}]) (S (s_seq s)) s.
-
 (* _schedule_state_tasks: one timer per after-transition, then each invoked service (a service that is not
    registered is fatal; the async engine starts a task, the sync engine calls the service inline) *)
 Definition start_service (eng : engine) (x : nat) (i : invoke) : M :=
   if Nat.eqb (i_src i) 0 then raise EImplMissing
   else match eng with
-       | Async => lift (fun s => arm x (s_now s + i_dur i)
-                                   (PSvc (i_id i) (i_ok i) (i_val i) (match i_onerror i with [] => false | _ => true end)) s)
-       | _ => lift (fun s => deliver eng {| p_owner := x; p_due := s_now s; p_seq := 0;
+       | Async => lift (fun s => arm x (s_now s)
+                                   (PSvcStart (i_id i) (i_dur i) (i_ok i) (i_val i) (match i_onerror i with [] => false | _ => true end)) s)
+       | _ => lift (logo (OSvc (i_id i))) ;;
+              lift (fun s => deliver eng {| p_owner := x; p_due := s_now s; p_seq := 0;
                                              p_kind := PSvc (i_id i) (i_ok i) (i_val i)
                                                             (match i_onerror i with [] => false | _ => true end) |} s)
        end.
